@@ -130,6 +130,17 @@ theorem left_join_unique_right_within_declared [DecidableEq κ] (kl : α → κ)
     (leftJoinOn kl kr L R).length ≤ joinSizeUnique L.length R.length := by
   rw [left_join_size_unique_right kl kr L R h]; unfold joinSizeUnique; omega
 
+/-- the declared bound of a Map is monotone in the bound of its input (a looser input bound never yields a tighter output bound) -/
+theorem mapSizeMax_mono (a b : Nat) (h : a ≤ b) (offset limit : Option Nat) : mapSizeMax a offset limit ≤ mapSizeMax b offset limit := by
+  unfold mapSizeMax
+  cases offset <;> cases limit <;> simp only <;> omega
+
+/-- **Stacked Maps**: the bound declared for a Map over a Map holds for the rows of the composition, for any two WHEREs, OFFSETs and
+LIMITs (the inner declared bound is all the outer node knows about its input). -/
+theorem map_map_size (p q : α → Bool) (o1 l1 o2 l2 : Option Nat) (b : List α) (inputMax : Nat) (h : b.length ≤ inputMax) :
+    (mapRows q o2 l2 (mapRows p o1 l1 b)).length ≤ mapSizeMax (mapSizeMax inputMax o1 l1) o2 l2 :=
+  map_size q o2 l2 _ _ (map_size p o1 l1 b inputMax h)
+
 /-- Non-vacuity: OFFSET beyond the input. -/
 example : mapRows (fun (x : Nat) => x > 1) (some 5) (some 2) [1, 2, 3] = [] ∧ mapSizeMax 3 (some 5) (some 2) = 0 := by decide
 
